@@ -243,6 +243,52 @@ Section Oracles.
     | QEnqueue b :: t => executed (q ++ [b]) t
     | QExecute :: t => match q with [] => executed [] t | b :: r => b :: executed r t end
     end.
+
+  (** ---------------------------------------------------------------------------------- *)
+  (** a verdict cache in the pool (mutation class [d_verdict_cache], [false] for the code as it
+      stands: the pool's [proofs] map is never consulted).  The cache key is (address of the bound
+      rule, NAME of the IBTP = from-to-index, hash of the proof) - neither the IBTP's content nor
+      the chain / trust root the rule was evaluated for.  [cn_cache] is node-local memory, lost by a
+      restart.  An IBTP is given with its name; [ib_id] stands for its whole content. *)
+  Record ccfg := { d_verdict_cache : bool }.
+  Inductive cevent := CCommit (st : pstate) | CRestart | CCheck (ib : ibtp) (name : N) (pd : proofdata).
+  Record cnode := { cn_state : pstate; cn_cache : list (N * N * N) }.
+
+  Definition cache_key (st : pstate) (ib : ibtp) (name : N) (pd : proofdata) : option (N * N * N) :=
+    match pd, master_rule st (snd (origin ib)) with
+    | PdBytes p _, Some r => Some (r_addr r, name, H p)
+    | _, _ => None
+    end.
+
+  Definition key_eqb3 (a b : N * N * N) : bool :=
+    (fst (fst a) =? fst (fst b)) && (snd (fst a) =? snd (fst b)) && (snd a =? snd b).
+
+  Definition c_step (c : ccfg) (n : cnode) (e : cevent) : cnode * option vres :=
+    match e with
+    | CCommit st => ({| cn_state := st; cn_cache := cn_cache n |}, None)
+    | CRestart => ({| cn_state := cn_state n; cn_cache := [] |}, None)
+    | CCheck ib name pd =>
+        let k := cache_key (cn_state n) ib name pd in
+        let hit := match k with Some key => existsb (key_eqb3 key) (cn_cache n) | None => false end in
+        let v := if d_verdict_cache c && hit then VOk else verify_proof (cn_state n) ib pd in
+        ({| cn_state := cn_state n;
+            cn_cache := match k, v with Some key, VOk => key :: cn_cache n | _, _ => cn_cache n end |}, Some v)
+    end.
+
+  Fixpoint c_run (c : ccfg) (n : cnode) (evs : list cevent) : list (option vres) :=
+    match evs with
+    | [] => []
+    | e :: t => let '(n', a) := c_step c n e in a :: c_run c n' t
+    end.
+
+  (** without memory: every answer is the verdict function applied to the committed state *)
+  Fixpoint c_spec (cur : pstate) (evs : list cevent) : list (option vres) :=
+    match evs with
+    | [] => []
+    | CCommit st :: t => None :: c_spec st t
+    | CRestart :: t => None :: c_spec cur t
+    | CCheck ib _ pd :: t => Some (verify_proof cur ib pd) :: c_spec cur t
+    end.
 End Oracles.
 
 (** ------------------------------------------------------------------------------------ *)
@@ -300,7 +346,7 @@ Fixpoint entries_ok (ops : list entry_op) (outs : list (bool * bool)) : bool :=
 (** ------------------------------------------------------------------------------------ *)
 (** concrete oracles used by the judge (the drivers realise exactly these):
     - [H]: proof bytes are named by numbers, the committed hash is compared by name;
-    - rules: 1 HappyRule (always true), 2 Fabric rule and 3 SimFabric rule fed junk (error),
+    - rules: 1 HappyRule (always true), 2 Fabric rule fed junk (error), 3 SimFabric rule (content-sensitive, see below),
       4 the first-byte rule (true iff the proof id is odd), anything else: no such rule (error);
     - signatures: s = 4 * signer + k; k = 0 genuine over the digest, k = 1 undecodable,
       k = 2 genuine over another digest (recovers to an unrelated address). *)
@@ -309,6 +355,11 @@ Definition c_digest (i s : N) : N := 8 * i + s.
 Definition c_rule (r chain p i trust : N) : option bool :=
   if r =? 1 then Some true
   else if r =? 4 then Some (N.odd p)
+  else if r =? 3 then
+    (* SimFabric rule with really endorsed proofs: proof 2000000 + 1000 * k + _ endorses the
+       out-message (index, function, arguments) numbered k; an IBTP's content number is id / 1000.
+       Anything else fed to the rule is junk (error). *)
+    if (2000000 <=? p) && ((p - 2000000) / 1000 =? i / 1000) then Some true else None
   else None.
 Definition c_recover (s d : N) : option N :=
   match s mod 4 with
